@@ -8,6 +8,8 @@ use crate::hist::*;
 
 #[derive(Debug, Clone, PartialEq)]
 pub struct MTable {
+    /// rows were inserted at some point (tombstones may remain physically)
+    pub ever_had_rows: bool,
     pub name: String,
     pub cols: Vec<ColSpec>,
     pub indexes: Vec<IndexSpec>,
@@ -25,7 +27,7 @@ impl MTable {
             .filter(|ix| !ix.cols.is_empty() && ix.cols.iter().all(|c| !matches!(s.cols[*c as usize % n].ty, Ty::Bool | Ty::Double)))
             .cloned()
             .collect();
-        MTable { name: s.name.clone(), cols: s.cols.clone(), indexes, rows: vec![], auto_hwm: 0 }
+        MTable { ever_had_rows: false, name: s.name.clone(), cols: s.cols.clone(), indexes, rows: vec![], auto_hwm: 0 }
     }
     pub fn col_names(&self) -> Vec<String> {
         self.cols.iter().map(|c| c.name.clone()).collect()
@@ -106,6 +108,9 @@ pub enum TxnEffect {
 pub struct TxnState {
     pub at_begin: Vec<MTable>,
     pub savepoints: Vec<(String, Vec<MTable>)>,
+    /// kinds of row-changing statements executed so far in this transaction, in order,
+    /// with the savepoint depth at which they ran
+    pub did: Vec<(&'static str, usize)>,
 }
 
 #[derive(Debug, Clone)]
@@ -409,6 +414,7 @@ impl Model {
                 let mut new_rows: Vec<Row> = Vec::new();
                 let mut rendered_rows: Vec<String> = Vec::new();
                 let mut hwm = tab.auto_hwm;
+                let mut explicit_seen = false;
                 for vs in rows {
                     let mut row: Row = Vec::with_capacity(n);
                     let mut rendered: Vec<String> = Vec::new();
@@ -429,8 +435,18 @@ impl Model {
                                 r.tags.push("long_value");
                             }
                             if c.auto_inc {
+                                // explicit ids for an AUTO_INCREMENT column stay positive (TurDB documents
+                                // by its error message that negative ids are refused; not part of the property)
+                                if let Val::Int(i) = &v {
+                                    if *i <= 0 {
+                                        v = Val::Int(1 - *i);
+                                    }
+                                }
                                 match &v {
                                     Val::Null => {
+                                        if explicit_seen {
+                                            r.tags.push("auto_inc_generated_after_explicit_id_in_same_statement");
+                                        }
                                         hwm += 1;
                                         v = Val::Int(hwm);
                                         rendered.push("NULL".into());
@@ -442,6 +458,7 @@ impl Model {
                                         if *i > hwm {
                                             hwm = *i;
                                         }
+                                        explicit_seen = true;
                                         r.tags.push("auto_inc_explicit");
                                     }
                                     _ => {}
@@ -506,6 +523,7 @@ impl Model {
                     r.expect = Expect::Ok { affected: Some(new_rows.len()), returning: if *returning { Some(new_rows.clone()) } else { None } };
                     r.after[ti].rows = all;
                     r.after[ti].auto_hwm = hwm;
+                    r.after[ti].ever_had_rows = true;
                 }
                 r.rows_touched = new_rows.len();
                 Some(r)
@@ -714,6 +732,9 @@ impl Model {
                     return None;
                 }
                 let tab = &self.tables[ti];
+                if tab.ever_had_rows {
+                    r.tags.push("truncate_table_with_rows");
+                }
                 r.sql = format!("TRUNCATE TABLE {}", tab.name);
                 r.table = Some(tab.name.clone());
                 r.rows_touched = tab.rows.len();
@@ -742,6 +763,9 @@ impl Model {
                 r.sql = "ROLLBACK".into();
                 r.txn = TxnEffect::Rollback;
                 r.after = t.at_begin.clone();
+                for (tag, _) in &t.did {
+                    r.tags.push(tag);
+                }
                 Some(r)
             }
             Op::Savepoint(n) => {
@@ -757,9 +781,15 @@ impl Model {
             Op::RollbackTo(n) => {
                 let t = self.txn.as_ref()?;
                 let name = format!("sp{}", n);
-                let sp = t.savepoints.iter().find(|s| s.0 == name)?;
+                let pos = t.savepoints.iter().position(|s| s.0 == name)?;
+                let sp = &t.savepoints[pos];
                 r.sql = format!("ROLLBACK TO SAVEPOINT {}", name);
                 r.after = sp.1.clone();
+                for (tag, depth) in &t.did {
+                    if *depth > pos {
+                        r.tags.push(tag);
+                    }
+                }
                 r.txn = TxnEffect::RollbackTo(name);
                 Some(r)
             }
@@ -824,6 +854,9 @@ impl Model {
                 if tab.cols.len() >= 8 {
                     return None;
                 }
+                if tab.ever_had_rows {
+                    r.tags.push("add_column_to_table_with_rows");
+                }
                 self.name_seq += 1;
                 let name = format!("n{}", self.name_seq);
                 let col = ColSpec { name: name.clone(), ty: *ty, pk: false, unique: false, not_null: false, auto_inc: false, default: *default };
@@ -833,7 +866,9 @@ impl Model {
                 });
                 r.table = Some(tab.name.clone());
                 if default.is_some() && !tab.rows.is_empty() {
-                    r.tags.push("add_column_default_existing_rows");
+                    // "read as their default or NULL": which of the two existing rows show is not
+                    // fixed by the property, so the model cannot predict it -> not generated
+                    return None;
                 }
                 let dv = match default {
                     Some(d) => default_val(*ty, *d, neg_ok()),
@@ -859,6 +894,9 @@ impl Model {
                 // dropping key or indexed columns is outside the generated subset
                 if col.pk || col.unique || col.auto_inc || tab.indexes.iter().any(|ix| ix.cols.iter().any(|x| *x as usize % tab.cols.len() == ci)) {
                     return None;
+                }
+                if tab.ever_had_rows {
+                    r.tags.push("drop_column_with_rows");
                 }
                 r.sql = format!("ALTER TABLE {} DROP COLUMN {}", tab.name, col.name);
                 r.table = Some(tab.name.clone());
@@ -939,8 +977,16 @@ impl Model {
                 Some(r)
             }
             Op::DropReopen => {
-                if self.in_txn() {
-                    return None;
+                if let Some(t) = &self.txn {
+                    // dropping the handle with an open transaction = implicit rollback
+                    r.lifecycle = Some(Lifecycle::DropReopen);
+                    r.txn = TxnEffect::Rollback;
+                    r.after = t.at_begin.clone();
+                    r.tags.push("drop_handle_in_txn");
+                    for (tag, _) in &t.did {
+                        r.tags.push(tag);
+                    }
+                    return Some(r);
                 }
                 r.lifecycle = Some(Lifecycle::DropReopen);
                 Some(r)
@@ -953,9 +999,23 @@ impl Model {
         match &r.txn {
             TxnEffect::None => {
                 self.tables = r.after.clone();
+                if let Some(t) = self.txn.as_mut() {
+                    if r.rows_touched > 0 {
+                        let tag = match r.kind {
+                            "INSERT" => "rollback_of_insert",
+                            "UPDATE" => "rollback_of_update",
+                            "DELETE" => "rollback_of_delete",
+                            _ => "",
+                        };
+                        if !tag.is_empty() {
+                            let depth = t.savepoints.len();
+                            t.did.push((tag, depth));
+                        }
+                    }
+                }
             }
             TxnEffect::Begin => {
-                self.txn = Some(TxnState { at_begin: self.tables.clone(), savepoints: vec![] });
+                self.txn = Some(TxnState { at_begin: self.tables.clone(), savepoints: vec![], did: vec![] });
             }
             TxnEffect::Commit => {
                 self.txn = None;
@@ -975,6 +1035,7 @@ impl Model {
                 if let Some(t) = self.txn.as_mut() {
                     if let Some(pos) = t.savepoints.iter().position(|s| &s.0 == n) {
                         t.savepoints.truncate(pos + 1);
+                        t.did.retain(|(_, d)| *d <= pos);
                     }
                 }
             }
